@@ -548,6 +548,14 @@ func genConfig(c *run.Ctx) configCase {
 		}
 		parts = append(parts, fmt.Sprintf("will(topic=%s,msg=%d,q%d,ret=%v)", t.Name, len(cfg.Will.Message), want.WillQoS, cfg.Will.Retain))
 	}
+	if !want.HasWill && r.Intn(3) == 0 {
+		// a nil Message disables the Will, whatever its options say
+		cfg.Will.Topic = []string{"", "w/t"}[r.Intn(2)]
+		cfg.Will.Retain = r.Intn(2) == 0
+		cfg.Will.AtLeastOnce = r.Intn(2) == 0
+		cfg.Will.ExactlyOnce = !cfg.Will.Retain && !cfg.Will.AtLeastOnce || r.Intn(3) == 0
+		parts = append(parts, fmt.Sprintf("will-options-without-message(ret=%v,q1=%v,q2=%v)", cfg.Will.Retain, cfg.Will.AtLeastOnce, cfg.Will.ExactlyOnce))
+	}
 	cc.Desc = fmt.Sprintf("clientID=%s keepalive=%d clean=%v %s", cc.ClientID.Name, cfg.KeepAlive, cfg.CleanSession, strings.Join(parts, " "))
 	return cc
 }
